@@ -151,6 +151,24 @@ fn run<F: MathFunction + RenderHints>(case: &Case, cx: &mut Cx) -> CheckResult {
     let ri = flat.index[&root];
     let d_ext = (d as usize).div_ceil(root_tile) * root_tile + 1;
     let mut vals = vec![];
+    crate::p06::image_access(
+        &image,
+        w as usize,
+        h as usize,
+        |p| {
+            ((p.depth as u128) << 96)
+                | ((p.normal[0].to_bits() as u128) << 64)
+                | ((p.normal[1].to_bits() as u128) << 32)
+                | p.normal[2].to_bits() as u128
+        },
+        cx,
+    )?;
+    ensure!(
+        image.as_bytes().len() == (w * h) as usize * 16,
+        "image-bytes",
+        "as_bytes() has {} bytes for {w}x{h} pixels of 16 bytes",
+        image.as_bytes().len()
+    );
     let data = image.as_slice();
     let mut depths_seen = std::collections::BTreeSet::new();
     let mut occluded_columns = 0u64;
